@@ -549,14 +549,14 @@ Plan gen(uint64_t seed, const std::string& tier) {
     for (int i = 0; i < nev; ++i) {
         const int c = int(r.below(10));
         Op op;
-        if (c < 3) {
+        if (c == 5 && r.chance(0.4)) {
+            op.kind = "copy";
+        } else if (c < 3) {
             op.kind = "ones";
             op.a = {double(r.logi(1, 60))};
         } else if (c < 6) {
             op.kind = "frame";
             op.a = {double(r.logi(1, (algo == 2) ? 300 : 1500))};
-        } else if (c == 5 && r.chance(0.4)) {
-            op.kind = "copy";
         } else if (c == 6 && r.chance(0.5)) {
             op.kind = "pause";
             op.a = {double(r.logi(1, 3 * L))};
